@@ -40,7 +40,7 @@ RULE = ("case = header subset | (sheet key, candidate name, real sheet present?)
 ASSUMPTIONS = [
     "warnings are classified by stable key phrases; wording beyond kind / subject / row is not compared",
     "the IANA subtag text files of the tree under verification are read as data by the reference lookup",
-    "deprecated metadata types = {subscriberid, simserial} (reconciled once with the pinned tree)",
+    "deprecated metadata types = {subscriberid, simserial} and their older spellings",
 ]
 BOUND = {
     "quick": "tr: subsets <=3 of 42 headers x or_other{0,1}; sheet: distance <=2 + distance-3 shell for settings/entities (warnings) and survey/choices/external_choices (error hints) over a 5-letter alphabet; lang: 11x11 pairs; row: L(3,3) x 0..2 triggers",
@@ -149,8 +149,8 @@ def classify(warnings):
             out[("badlang", tuple(sorted(body.split(", "))))] += 1
         elif re.match(ROW + r" Use the max-pixels parameter", w):
             out[("maxpx", int(re.match(ROW, w).group(1)))] += 1
-        elif re.match(ROW + r" (\S+) is no longer supported on most devices", w):
-            m = re.match(ROW + r" (\S+) is no longer", w)
+        elif re.match(ROW + r" (.+?) is no longer supported on most devices", w):
+            m = re.match(ROW + r" (.+?) is no longer", w)
             out[("deprecated", int(m.group(1)), m.group(2))] += 1
         elif re.match(ROW + r" (Group|Repeat|Loop) has no label", w):
             m = re.match(ROW + r" (Group|Repeat|Loop) has no label: \{'name': '(\w+)'", w)
@@ -447,7 +447,7 @@ def check_lang(case):
 
 # ------------------------------------------------------------------ row -----------------
 NAMES = ["a", "b", "d", "e", "f", "g"]
-Q_TRIG = ["image", "image-maxpx", "image-app", "image-app-maxpx", "subscriberid", "simserial", "deviceid", "phonenumber", "disabled-no", "disabled-yes", "comment"]
+Q_TRIG = ["image", "image-maxpx", "image-app", "image-app-maxpx", "subscriberid", "simserial", "sim id", "get subscriber id", "get device id", "deviceid", "phonenumber", "disabled-no", "disabled-yes", "comment"]
 C_TRIG = ["nolabel", "nolabel-fieldlist", "nolabel-media", "disabled-no", "label-tablelist", "label-fieldlist", "label-custom", "nolabel-tablelist", "nolabel-custom", "label-hint"]
 
 
@@ -480,9 +480,11 @@ def build_row(forest, trig):
                     exp[("maxpx", rn)] += 1
                 elif tg == "image-app-maxpx":
                     r = {"type": "image", "name": nm, "label": nm, "parameters": "app=com.example.cam max-pixels=320"}
-                elif tg in ("subscriberid", "simserial"):
+                elif tg in ("subscriberid", "simserial", "sim id", "get subscriber id"):
                     r = {"type": tg, "name": nm}
                     exp[("deprecated", rn, tg)] += 1
+                elif tg == "get device id":
+                    r = {"type": tg, "name": nm}
                 elif tg in ("deviceid", "phonenumber"):
                     r = {"type": tg, "name": nm}
                 elif tg == "disabled-no":
